@@ -52,7 +52,7 @@ def gen_classes(rng, malformed=False):
             else:
                 inputs.append({'by': 'name', 'ref': cj['name'], 'default': rng.choice([5, None])})
         if rng.random() < 0.1:
-            inputs.append({'by': 'name', 'ref': rng.choice(['~t.*', '~~t.*', '~g:t.*', '~t0'])})
+            inputs.append({'by': 'name', 'ref': rng.choice(['~t.*', '~~t.*', '~g:t.*', '~t0', '~t', '~t1', '~g:t'])})
         if malformed:
             r = rng.random()
             if r < 0.25:
@@ -73,15 +73,33 @@ def gen_classes(rng, malformed=False):
     return classes
 
 
-def ctx_dict(rng):
+def ctx_dict(rng, used=(), shared=None):
+    """a context dict; `used` = namespaces the config tree really mounts (so that per-namespace entries take effect),
+    `shared` = a namespace every context of this case gets an entry for (merging of per-namespace entries)"""
     c = {}
     for pn in ['x', 'y', 'z', 'w', 'x_cfg']:
         if rng.random() < 0.25:
             c[pn] = rng.choice([7, 'c', [3]])
+    pool = (list(used) * 3 if used else []) + NSN + ['n::xn', 'g::n', 'train::n']
     if rng.random() < 0.5:
-        c['for_namespaces'] = {rng.choice(NSN + ['n::xn', 'g::n', 'train::n']): {rng.choice(['x', 'y', 'z']): rng.choice([8, 'd'])}
+        c['for_namespaces'] = {rng.choice(pool): {rng.choice(['x', 'y', 'z']): rng.choice([8, 'd'])}
                                for _ in range(rng.randint(1, 2))}
+    if shared is not None and rng.random() < 0.7:
+        c.setdefault('for_namespaces', {}).setdefault(shared, {})[rng.choice(['x', 'y', 'z', 'w'])] = rng.choice([9, 'e', [4]])
     return c
+
+
+def used_namespaces(fs):
+    """aliases appearing in `uses` entries (and their pairwise compositions)"""
+    al = []
+    for d in fs.values():
+        parts = d['configs'].values() if 'configs' in d else [d]
+        for p in parts:
+            for u in los(p.get('uses', [])):
+                if ' as ' in u:
+                    al.append(u.split(' as ')[1])
+    al = sorted(set(al))
+    return al + [f'{a}::{b}' for a in al[:2] for b in al[:2]]
 
 
 def gen_case(rng, malformed=False, yaml_share=0.25, conflict=False):
@@ -164,21 +182,26 @@ def gen_case(rng, malformed=False, yaml_share=0.25, conflict=False):
                 if p.get('dtype'):
                     v = {'int': 3, 'str': 's', 'list': [1]}[p['dtype']]
                 q[p.get('nic', p['name'])] = v
-            fs['q_conflict.json'] = q
-            fs[main]['uses'] = u0 + ['@cfg/q_conflict.json' + ns_part]
+            # half of the time the second declaring file has the same stem as the first, in another directory
+            pipeline_file = target.split(' as ')[0].replace('@cfg/', '')
+            qname = ('other/' + pipeline_file.split('#')[0].split('/')[-1]) if rng.random() < 0.5 and '#' not in pipeline_file else 'q_conflict.json'
+            fs[qname] = q
+            fs[main]['uses'] = u0 + ['@cfg/' + qname + ns_part]
     kind = rng.choice(['none', 'none', 'dict', 'file', 'list', 'uses'])
     ctx = None
+    used = used_namespaces(fs)
+    shared = rng.choice(used) if used and rng.random() < 0.7 else None
     if kind == 'dict':
-        ctx = ctx_dict(rng)
+        ctx = ctx_dict(rng, used)
     elif kind == 'file':
-        fs['ctx.json'] = ctx_dict(rng); ctx = '@cfg/ctx.json'
+        fs['ctx.json'] = ctx_dict(rng, used); ctx = '@cfg/ctx.json'
     elif kind == 'list':
-        fs['ctx.json'] = ctx_dict(rng); ctx = [ctx_dict(rng), '@cfg/ctx.json', ctx_dict(rng)]
+        fs['ctx.json'] = ctx_dict(rng, used, shared); ctx = [ctx_dict(rng, used, shared), '@cfg/ctx.json', ctx_dict(rng, used, shared)]
     elif kind == 'uses':
-        fs['c1.json'] = ctx_dict(rng); fs['c2.json'] = ctx_dict(rng)
+        fs['c1.json'] = ctx_dict(rng, used); fs['c2.json'] = ctx_dict(rng, used, shared)
         if rng.random() < 0.4:
             fs['c2.json']['uses'] = '@cfg/c1.json as ' + rng.choice(NSN)
-        top = ctx_dict(rng)
+        top = ctx_dict(rng, used, shared)
         top['uses'] = ['@cfg/c1.json as ' + rng.choice(NSN), '@cfg/c2.json' + rng.choice(['', ' as ' + rng.choice(NSN)])]
         if rng.random() < 0.5:
             fs['ctx.json'] = top; ctx = '@cfg/ctx.json'
